@@ -74,7 +74,7 @@ def run(chk, repo, tier):
     for (w, p), want in sorted(doc.items()):
         got = code.get((w, p))
         gname = got[0] if got else None
-        loc = f'{mod.relpath}:{got[1]}' if got else f'{mod.relpath}:{mod.globals["_mul_ptype_table"].lineno}'
+        loc = f'{mod.relpath}:{got[1]}' if got else f'{mod.relpath}:{mod.globals[tables.mul_table_name(repo)].lineno}'
         chk.ob('C08-a', 'T-cell', 'plane._mul_ptype_table', f'wavefront {w} x plane {p}', gname == want,
                f'documented: {want or "Not allowed"}; code: {gname or "Not allowed"}', loc)
     for (w, p), (r, line) in sorted(code.items()):
@@ -105,6 +105,7 @@ def run(chk, repo, tier):
                         chk.ob('C08-b', 'B4-truth', f.key, f'truth test of function `{dotted(t)}`', False,
                                f'`{seg(f, t)}` tests a function object (always true), the call is missing',
                                f.loc(t))
+    TABLE = 'plane.' + tables.mul_table_name(repo)
     fcan = repo.func('plane._can_mul_ptype')
     _, paths, _ = analyse(repo, fcan)
     oks = []
@@ -119,7 +120,7 @@ def run(chk, repo, tier):
         a = c.single_atom() if isinstance(c, Poly) else None
         good = a is not None and is_app(a, 'in') and a[2][0] == S('plane_ptype') and \
             any(x == ('sym', 'wavefront_ptype') for x in nf.value_atoms(a[2][1])) and \
-            any(x == ('sym', 'plane._mul_ptype_table') for x in nf.value_atoms(a[2][1]))
+            any(x == ('sym', TABLE) for x in nf.value_atoms(a[2][1]))
         oks.append(good and (pol == tv))
     if oks is None:
         # accepted alternative: a single boolean expression
@@ -127,14 +128,14 @@ def run(chk, repo, tier):
         a = rets[0].ret.single_atom() if len(rets) == 1 and isinstance(rets[0].ret, Poly) else None
         good = a is not None and is_app(a, 'in') and a[2][0] == S('plane_ptype') and \
             ('sym', 'wavefront_ptype') in nf.value_atoms(a[2][1]) and \
-            ('sym', 'plane._mul_ptype_table') in nf.value_atoms(a[2][1])
+            ('sym', TABLE) in nf.value_atoms(a[2][1])
         oks = [good]
     chk.ob('C08-b', 'D-table-use', 'plane._can_mul_ptype', 'membership test on the table', all(oks) and bool(oks),
            'returns True exactly when plane_ptype is a key of _mul_ptype_table[wavefront_ptype]'
            if all(oks) else 'does not test plane_ptype against _mul_ptype_table[wavefront_ptype]', fcan.loc())
     fres = repo.func('plane._mul_result_ptype')
     _, paths, _ = analyse(repo, fres)
-    want = nf.index(nf.index(S('plane._mul_ptype_table'), S('wavefront_ptype')), S('plane_ptype'))
+    want = nf.index(nf.index(S(TABLE), S('wavefront_ptype')), S('plane_ptype'))
     rets = returns(paths)
     chk.ob('C08-b', 'D-table-use', 'plane._mul_result_ptype', 'table lookup',
            bool(rets) and all(p.ret == want for p in rets),
